@@ -50,7 +50,33 @@ def run_c16(res, tier):
     return {}
 
 
+def run_c12(res, tier):
+    import front
+    ast = load_ast()
+    front.run_parse_rules(res, ast)
+    return {}
+
+
+def run_c04(res, tier):
+    import front, iolim
+    ast = load_ast()
+    front.run_cmd_table(res, ast)
+    front.run_cell_rules(res, ast, rules=("WRAP-BY-TYPE", "CELL-CASTS", "CELL-CONSTS", "CELL-DELEGATE"))
+    iolim.run_io_map(res, ast)
+    return {}
+
+
+def run_c14(res, tier):
+    import front
+    ast = load_ast()
+    front.run_cell_rules(res, ast)
+    return {}
+
+
 REGISTRY = {
+    "C12": {"run": run_c12, "level": "other", "technique": "t", "claim": "c", "note": "n", "explanation": "e", "not_decided": []},
+    "C04": {"run": run_c04, "level": "other", "technique": "t", "claim": "c", "note": "n", "explanation": "e", "not_decided": []},
+    "C14": {"run": run_c14, "level": "other", "technique": "t", "claim": "c", "note": "n", "explanation": "e", "not_decided": []},
     "C16": {"run": run_c16, "level": "other", "technique": "t", "claim": "c", "note": "n", "explanation": "e", "not_decided": []},
     "C08": {"run": run_c08, "level": "other", "technique": "t", "claim": "c", "note": "n", "explanation": "e", "not_decided": []},
     "C07": {"run": run_c07, "level": "other", "technique": "t", "claim": "c", "note": "n", "explanation": "e", "not_decided": []},
